@@ -3,10 +3,10 @@ from props import S
 CFG = {
     "properties_file": "Properties/C19.v",
     "corr_files": ["Corr/RateLimitCorr.v", "Corr/C19.v"],
-    "streams": [S("C19", "drive_ratelimit", 200, 10000), S("C19ns", "drive_ratelimit", 100, 5000)],
+    "streams": [S("C19", "drive_ratelimit", 180, 10000), S("C19ns", "drive_ratelimit", 90, 5000)],
     "rule": "a RateLimiter (global {1,3,5,10,1000}/s, per-IP {1,3,10}/s burst {1,2,5}, per-connection off or {1,3,1000}/s) "
-            "receives interleaved AllowRequest calls of 0-2 abusive clients (volleys of 1-6 calls at one instant, far above their "
-            "own limits) and 1-3 compliant clients (paced by a shadow bucket so that they stay within their own limits), 20-90 "
+            "receives interleaved AllowRequest calls of 0-2 abusive clients (volleys of 1-5 calls at one instant, far above their "
+            "own limits) and 1-3 compliant clients (paced by a shadow bucket so that they stay within their own limits), 15-70 "
             "scheduling steps, on the 2^-9 s grid (C19) or with arbitrary ns timings (C19ns). Compared: the admit bit of every "
             "call; oracle: every call of a client whose whole stream conforms to its per-IP and per-connection limits is admitted "
             "whenever a reference global bucket charged with the ADMITTED calls only holds a token. Non-trivial = an abusive call "
@@ -18,7 +18,8 @@ CFG = {
                   "C19_no_consume (a request refused by another limiter leaves the global bucket untouched), C19_own_limit_refusal, "
                   "C19_global_tracks_admitted (after any history the global bucket equals a stand-alone bucket charged with the "
                   "admitted requests only), C19_isolation / C19_isolation_go (a client whose own buckets hold a token is admitted "
-                  "whenever the admitted traffic leaves a global token), any history, any configuration >= 0, cleanup at arbitrary "
+                  "whenever the admitted traffic leaves a global token), C19_isolation_history (the same with 'within its limits' "
+                  "stated on the client's whole request stream via reference buckets), any history, any configuration >= 0, cleanup at arbitrary "
                   "points. C19_facts re-proves on every run that the order extracted from RateLimiter.AllowRequest has the global "
                   "check last; C19_global_first_violates shows the side condition is necessary.",
     "level_note": "Trusted: Coq kernel; Model/RateLimit.v; astfacts' reading of AllowRequest (order of the .Allow calls, early "
